@@ -864,7 +864,9 @@ impl ViCut {
 				};
 				Ok(val.clone())
 			}
-			_ => unreachable!()
+			// e.g. a bare 'return'
+			CmdArg::Null => Ok(Val::Null),
+			CmdArg::Count(count) => Ok(Val::Num(*count as isize)),
 		}
 	}
 	pub fn eval_expr(&mut self, expr: &Expr, ctx: &mut ExecCtx) -> Result<Val,String> {
